@@ -9,6 +9,7 @@ package c17
 
 import (
 	"fmt"
+	"github.com/bokysan/socketace/v2/verifharness/netsim"
 	"strings"
 	"testing"
 	"time"
@@ -57,6 +58,19 @@ func execute(t *testing.T, c Case) (kind, detail string) {
 				o.Insecure = true
 			}
 		}
+		// other=at-once: the sibling is opened in the same instant as the connection under test, on a client
+		// that has no session yet. Should that make the client dial a second physical connection, that dial's
+		// first write returns only once the connection under test is established (releaseDial2).
+		var releaseDial2 func()
+		if c.Other == "at-once" {
+			dials := 0
+			o.OnDial = func(cl, sv *netsim.MemConn) {
+				dials++
+				if dials == 2 {
+					releaseDial2 = cl.HoldWriteReturn(1)
+				}
+			}
+		}
 		w, err := world.New(o)
 		if err != nil {
 			kind, detail = "setup", err.Error()
@@ -79,7 +93,7 @@ func execute(t *testing.T, c Case) (kind, detail string) {
 			fa.Close()
 			step()
 		}
-		if c.Other == "failed-dial-before" || c.Other == "refused-attempt" || c.Other == "idle-later" || c.Other == "busy-later" {
+		if c.Other == "failed-dial-before" || c.Other == "refused-attempt" || c.Other == "idle-later" || c.Other == "busy-later" || c.Other == "at-once" {
 			// handled below: the sibling is a connection ATTEMPT for a channel the server does not offer,
 			// made while the connection under test is open
 		} else if c.Other != "none" {
@@ -100,6 +114,9 @@ func execute(t *testing.T, c Case) (kind, detail string) {
 		} else {
 			app = w.OpenApp("x", expect)
 		}
+		if c.Other == "at-once" {
+			otherApp = w.OpenApp("y", func(off int) byte { return world.Pattern(0x55, off) })
+		}
 		step()
 		tg = w.Chans[0].Target(0)
 		if tg == nil {
@@ -109,6 +126,20 @@ func execute(t *testing.T, c Case) (kind, detail string) {
 		closer, other := app, tg
 		if c.Closer == "target" {
 			closer, other = tg, app
+		}
+		if c.Other == "at-once" {
+			if releaseDial2 != nil {
+				releaseDial2()
+				releaseDial2 = nil
+				step()
+				bubble.Advance(time.Second)
+				step()
+			}
+			otherTgt = w.Chans[1].Target(0)
+			if otherTgt == nil {
+				kind, detail = "no-connection", fmt.Sprintf("the logical connection opened at the same instant was not established (front=%q)", w.Front.Err)
+				return
+			}
 		}
 		if c.Other == "idle-later" || c.Other == "busy-later" {
 			// the sibling is opened AFTER the connection under test and outlives it
@@ -287,6 +318,9 @@ func cases(thorough bool) []Case {
 						}
 						if strings.HasSuffix(other, "-later") && !thorough && (x.sec != "plain" || n > 4096 || (other == "busy-later" && pos != "consumed")) {
 							continue
+						}
+						if other == "none" && (x.carrier == "stream" || x.carrier == "ws") && (thorough || x.sec == "plain") {
+							out = append(out, Case{Carrier: x.carrier, Sec: x.sec, Closer: closer, N: n, Pos: pos, Other: "at-once"})
 						}
 						out = append(out, Case{Carrier: x.carrier, Sec: x.sec, Closer: closer, N: n, Pos: pos, Other: other})
 						quiets := []int{20, 45} // 45 s: past every handshake-time deadline (30 s) a carrier may still have armed
